@@ -160,7 +160,7 @@ func op_rangeptrarraykey(st string) { var p *[3]int; if st == "valid" { p = &[3]
 //go:noinline
 func op_rangeptrarrayval(st string) { var p *[3]int; if st == "valid" { p = &[3]int{1, 2, 3} }; for _, v := range *p { sink += v } }
 //go:noinline
-func op_assertemptyiface(st string) { var s shaper; if st == "match" { s = sq{2} }; v := s.(any); sink = v.(sq).s }
+func op_assertemptyiface(st string) { var s shaper; if st == "match" { s = sq{2} }; v := s.(any); if v != nil { sink = 2 } else { sink = 3 } }
 //go:noinline
 func op_methodptr(st string) { var p *smallS; if st == "valid" { p = &smallS{1, 2} }; sink = p.get() }
 //go:noinline
